@@ -5,6 +5,7 @@ import (
 	"errors"
 	"math/rand"
 	"strings"
+	"sync"
 	"sync/atomic"
 	"time"
 
@@ -103,6 +104,7 @@ type RedisPubsubPeers struct {
 
 	peers     *generics.MapWithTTL[string, string]
 	hash      atomic.Uint64
+	cbMut     sync.Mutex // protects callbacks
 	callbacks []func()
 	sub       pubsub.Subscription
 	topic     string // formatted topic name
@@ -114,9 +116,11 @@ func (p *RedisPubsubPeers) checkHash() {
 	peers := p.peers.SortedKeys()
 	newhash := hashList(peers)
 	if p.hash.Swap(newhash) != newhash {
+		p.cbMut.Lock()
 		for _, cb := range p.callbacks {
 			go cb()
 		}
+		p.cbMut.Unlock()
 	}
 	p.Metrics.Gauge("num_peers", float64(len(peers)))
 	p.Metrics.Gauge("peer_hash", float64(newhash))
@@ -264,6 +268,8 @@ func (p *RedisPubsubPeers) GetInstanceID() (string, error) {
 }
 
 func (p *RedisPubsubPeers) RegisterUpdatedPeersCallback(callback func()) {
+	p.cbMut.Lock()
+	defer p.cbMut.Unlock()
 	p.callbacks = append(p.callbacks, callback)
 }
 
